@@ -5,6 +5,7 @@ CONSTANTS
   TypesC <- TypesA
   Depth = "core"
   FieldSet = "full"
+  Entries <- EntriesUntrusted
   MaxOps = 2
   Heavy <- HeavyAll
   HeavyAfter <- HeavyLiteSet
